@@ -55,6 +55,22 @@ ROW_NAMES = [n for n in NAMES if RECIPES[n].nsrc >= 1
 STREAM_NAMES = [n for n in ROW_NAMES if RECIPES[n].stream]
 NONSTREAM_NAMES = [n for n in ROW_NAMES if not RECIPES[n].stream]
 STACKABLE = [n for n in STREAM_NAMES if RECIPES[n].stackable]
+# Non-streaming views that deliver their header row after reading nothing
+# but the header rows of their sources (the sort-backed operators yield it
+# before they start sorting; tail() before it starts buffering).  Declared,
+# from reading the code: a constructor that consults the header of such a
+# view (natural joins, the *all functions) still reads no data row.
+# pivot, recast and transpose need data for their header and are not here.
+HDR_FREE = ('aggregate', 'antijoin', 'complement', 'conflicts', 'crossjoin',
+            'diff', 'distinct', 'duplicates', 'fold',
+            'groupcountdistinctvalues', 'groupselectfirst', 'groupselectlast',
+            'groupselectmax', 'groupselectmin', 'intersection', 'join',
+            'join-natural', 'leftjoin', 'lookupjoin', 'merge',
+            'mergeduplicates', 'mergesort', 'outerjoin', 'recordcomplement',
+            'recorddiff', 'rightjoin', 'rowgroupmap', 'rowreduce', 'sort',
+            'tail', 'unique', 'unjoin')
+HDR_FREE = tuple(n for n in HDR_FREE if n in NONSTREAM_NAMES)
+HDR_CTOR_STACKABLE = [n for n in STACKABLE if RECIPES[n].hdr_ctor]
 BYTE_NAMES = ['fromcsv', 'fromtsv', 'frompickle', 'fromtext',
               'fromjson-lines']
 CONSUMERS = ['next', 'next', 'next', 'islice', 'head', 'look', 'lookstr',
@@ -147,6 +163,15 @@ def gen_case(rng, tier, g):
         for _ in range(rng.choice([1, 1, 2])):
             n2 = rng.choice(STACKABLE)
             stack.append([n2, rng.randrange(len(RECIPES[n2].variants))])
+    if name in HDR_FREE and not rec.items and not rec.multi \
+            and rng.random() < 0.45:
+        # a header-consulting constructor on top of a view whose header
+        # costs no data row: construction still reads none
+        for _ in range(rng.choice([0, 0, 1])):
+            n2 = rng.choice(STACKABLE)
+            stack.append([n2, rng.randrange(len(RECIPES[n2].variants))])
+        n2 = rng.choice(HDR_CTOR_STACKABLE)
+        stack.append([n2, rng.randrange(len(RECIPES[n2].variants))])
     nf = rng.randint(3, 5)
     prof = 'default' if rec.profile == 'textish' else None
     if rec.profile == 'textish':
@@ -415,7 +440,10 @@ def _one_length(e, case, total, log, sb, poison):
             for n, _ in reversed(stack[:pos]):
                 st = RECIPES[n].stream
                 if st is None:
-                    below = 10 ** 9
+                    # (a stage in between that needs rows of this view for
+                    # its own header - skip(n), unpackdict - makes it run)
+                    if n not in HDR_FREE or below > 0:
+                        below = 10 ** 9
                     break
                 if st[0] in ('filter', 'filter-end', 'contract') and below > 0:
                     below = 10 ** 9
